@@ -1,7 +1,7 @@
 (* C03, cross tensors: when is L(S_a, V_b) symmetric in a,b?  For every ordered commutative ring. *)
 From Coq Require Import List Arith Bool Lia Ring ZArith.
 From Onsager Require Import Base.OrdRing Base.Instances Model.Net Model.Interstitial Model.NetMaps Model.Lump
-     Model.TensorSym Proofs.Net_proofs Proofs.Interstitial_proofs.
+     Model.TensorSym Proofs.Net_proofs Proofs.Interstitial_proofs Proofs.NetMaps_proofs.
 Import ListNotations.
 
 Lemma nth_map_seq {A} (f : nat -> A) n a d : a < n -> nth a (map f (seq 0 n)) d = f a.
@@ -137,6 +137,112 @@ Proof.
   apply (L_welldef K N (comp a) (comp (dim + b)) ga (fld (nth a gam [])) gb (fld (nth (dim + b) gam []))).
   - exact Hga.
   - apply Hcor. lia.
+Qed.
+
+(* ---- block operations R (+) R on two-species networks ------------------------------------------ *)
+Lemma seq_shift_add (d n : nat) : seq d n = map (fun b => Nat.add d b) (seq O n).
+Proof.
+  revert d. induction n as [|n IH]; intro d; [reflexivity|].
+  cbn [seq map]. rewrite Nat.add_0_r. f_equal.
+  rewrite (IH (S d)), <- seq_shift, map_map. apply map_ext. intro b. lia.
+Qed.
+
+Lemma sumf_split2 (f : nat -> K) (d : nat) :
+  sumf f (seq O (Nat.add d d)) = sumf f (seq O d) + sumf (fun b => f (Nat.add d b)) (seq O d).
+Proof.
+  rewrite seq_app, sumf_app. cbn [Nat.add]. rewrite (seq_shift_add d d), sumf_map. reflexivity.
+Qed.
+
+Lemma blk_nth dim (R : list (list K)) k a : (k < Nat.add dim dim)%nat -> (a < Nat.add dim dim)%nat ->
+  nth a (nth k (blk dim R) []) 0 = blk_ent dim R k a.
+Proof.
+  intros Hk Ha. unfold blk.
+  rewrite (nth_map_seq (fun k0 => map (fun a0 => blk_ent dim R k0 a0) (seq O (Nat.add dim dim)))) by exact Hk.
+  rewrite (nth_map_seq (fun a0 => blk_ent dim R k a0)) by exact Ha. reflexivity.
+Qed.
+
+Lemma blk_ent_lo dim (R : list (list K)) k a : (k < dim)%nat -> (a < dim)%nat -> blk_ent dim R k a = ent R k a.
+Proof. intros Hk Ha. unfold blk_ent. apply Nat.ltb_lt in Hk, Ha. rewrite Hk, Ha. reflexivity. Qed.
+Lemma blk_ent_lohi dim (R : list (list K)) k a : (k < dim)%nat -> blk_ent dim R k (Nat.add dim a) = 0.
+Proof.
+  intros Hk. unfold blk_ent. apply Nat.ltb_lt in Hk. rewrite Hk.
+  destruct (Nat.ltb (Nat.add dim a) dim) eqn:E; [apply Nat.ltb_lt in E; lia | reflexivity].
+Qed.
+Lemma blk_ent_hilo dim (R : list (list K)) k a : (a < dim)%nat -> blk_ent dim R (Nat.add dim k) a = 0.
+Proof.
+  intros Ha. unfold blk_ent.
+  destruct (Nat.ltb (Nat.add dim k) dim) eqn:E; [apply Nat.ltb_lt in E; lia|].
+  apply Nat.ltb_lt in Ha. rewrite Ha. reflexivity.
+Qed.
+Lemma blk_ent_hi dim (R : list (list K)) k a : blk_ent dim R (Nat.add dim k) (Nat.add dim a) = ent R k a.
+Proof.
+  unfold blk_ent.
+  destruct (Nat.ltb (Nat.add dim k) dim) eqn:E; [apply Nat.ltb_lt in E; lia|].
+  destruct (Nat.ltb (Nat.add dim a) dim) eqn:E2; [apply Nat.ltb_lt in E2; lia|].
+  replace (Nat.sub (Nat.add dim k) dim) with k by lia. replace (Nat.sub (Nat.add dim a) dim) with a by lia. reflexivity.
+Qed.
+
+(* the S-V block of the conjugated 2dim x 2dim tensor is the conjugated S-V block *)
+Lemma conj_blk dim (R : list (list K)) (T : nat -> nat -> K) k l : (k < dim)%nat -> (l < dim)%nat ->
+  conj_tensor (Nat.add dim dim) (blk dim R) T k (Nat.add dim l)
+  = conj_tensor dim R (fun a b => T a (Nat.add dim b)) k l.
+Proof.
+  intros Hk Hl. unfold conj_tensor.
+  transitivity (sumf (fun a => sumf (fun b => blk_ent dim R k a * blk_ent dim R (Nat.add dim l) b * T a b)
+                                    (seq O (Nat.add dim dim))) (seq O (Nat.add dim dim))).
+  { apply sumf_ext. intros a Ha. apply sumf_ext. intros b Hb. apply in_seq in Ha, Hb.
+    rewrite !blk_nth by lia. reflexivity. }
+  rewrite sumf_split2.
+  transitivity (sumf (fun a => sumf (fun b => ent R k a * ent R l b * T a (Nat.add dim b)) (seq O dim)) (seq O dim) + 0).
+  2:{ fold (ent R). ring_simplify. apply sumf_ext. intros a _. apply sumf_ext. intros b _. reflexivity. }
+  f_equal.
+  - apply sumf_ext. intros a Ha. apply in_seq in Ha. rewrite sumf_split2.
+    transitivity (0 + sumf (fun b => ent R k a * ent R l b * T a (Nat.add dim b)) (seq O dim)); [|ring].
+    f_equal.
+    + transitivity (sumf (fun _ : nat => 0) (seq O dim)); [|apply sumf_zero].
+      apply sumf_ext. intros b Hb. apply in_seq in Hb. rewrite (blk_ent_hilo dim R l b) by lia. ring.
+    + apply sumf_ext. intros b _. rewrite blk_ent_lo by lia. rewrite blk_ent_hi. reflexivity.
+  - transitivity (sumf (fun _ : nat => 0) (seq O dim)); [|apply sumf_zero].
+    apply sumf_ext. intros a _.
+    transitivity (sumf (fun _ : nat => 0) (seq O (Nat.add dim dim))); [|apply sumf_zero].
+    apply sumf_ext. intros b _. rewrite (blk_ent_lohi dim R k a) by exact Hk. ring.
+Qed.
+
+(* operations that map the two-species network onto itself leave the cross tensor invariant *)
+Theorem cross_invariant n dim (N : net K) ops (g : nat -> nat -> K) :
+  ops_okb dim n N ops = true ->
+  (forall l, (l < Nat.add dim dim)%nat -> weakKCL N (comp l) (g l)) ->
+  invariant dim (map (fun o => fst (fst o)) ops)
+            (fun a b => Bform N (comp a) (comp (Nat.add dim b)) (g a) (g (Nat.add dim b))).
+Proof.
+  intros Hok Hg R HR k l Hk Hl.
+  apply in_map_iff in HR. destruct HR as [[[R' p] q] [HRe Hin]]. cbn [fst] in HRe. subst R'.
+  unfold ops_okb in Hok. rewrite forallb_forall in Hok. specialize (Hok _ Hin). cbn beta iota in Hok.
+  repeat (apply andb_true_iff in Hok; destruct Hok as [Hok ?]).
+  match goal with
+  | H1 : Nat.eqb (length q) n = true, H2 : inverseb n p q = true, H3 : isob _ _ _ _ = true |- _ =>
+      apply Nat.eqb_eq in H1; apply Nat.eqb_eq in Hok;
+      pose proof (symmetry_checker_sound K N (Nat.add dim dim) (blk dim R) p q n g Hok H1 H2 H3 Hg
+                    k (Nat.add dim l) ltac:(lia) ltac:(lia)) as E
+  end.
+  rewrite E. apply (conj_blk dim R (fun a b => Bform N (comp a) (comp b) (g a) (g b)) k l Hk Hl).
+Qed.
+
+(* COMBINED soundness of the executable checks: every listed operation maps the chain onto itself and the
+   listed matrices leave no antisymmetric tensor invariant  ==>  the cross tensor, for ANY correctors, is symmetric
+   up to the torsion factor (symmetric outright over Z, Q) *)
+Theorem cross_symmetric_checker_sound n dim (N : net K) ops (g : nat -> nat -> K) :
+  ops_okb dim n N ops = true ->
+  no_axialb dim (map (fun o => fst (fst o)) ops) = true ->
+  (forall l, (l < Nat.add dim dim)%nat -> weakKCL N (comp l) (g l)) ->
+  forall k l, (k < dim)%nat -> (l < dim)%nat ->
+    let T := fun a b => Bform N (comp a) (comp (Nat.add dim b)) (g a) (g (Nat.add dim b)) in
+    kmul (length ops) (asym T k l + asym T k l) = 0.
+Proof.
+  intros Hok Hna Hg k l Hk Hl T.
+  rewrite <- (map_length (fun o => fst (fst o)) ops).
+  apply (cross_symmetric_of_group dim (map (fun o => fst (fst o)) ops) T);
+    [apply (cross_invariant n dim N ops g Hok Hg) | exact Hna | exact Hk | exact Hl].
 Qed.
 
 End P.
